@@ -200,7 +200,7 @@ def tables_vectors(prop, tier, vec_path, corpus_limit=None):
     return tot, spaces, n
 
 
-def tables_check(prop, tier, replay, rule, tv_module="Tables"):
+def tables_check(prop, tier, replay, rule, tv_module="Tables", kind="tables", extra_vectors=()):
     t0 = time.time()
     rep = Reporter(prop, tier)
     vec_path = os.path.join(OUT, f"{prop}_{tier}.vec.ndjson")
@@ -211,8 +211,13 @@ def tables_check(prop, tier, replay, rule, tv_module="Tables"):
         tot, spaces = {"generated": 0, "distinct": 0, "wall": 0.0}, []
     else:
         tot, spaces, n = tables_vectors(prop, tier, vec_path)
+        if extra_vectors:
+            with open(vec_path, "a") as f:
+                for v in extra_vectors:
+                    f.write(json.dumps(v) + "\n")
+            spaces.append({"space": "hand-written catalogue", "vectors": len(extra_vectors)})
     outp = os.path.join(OUT, f"{prop}_{tier}.replay.ndjson")
-    pv(["replay", "tables", vec_path, outp])
+    pv(["replay", kind, vec_path, outp])
     res = read_ndjson(outp)
     summary = res[-1]["summary"]
     for r in res[:-1]:
@@ -226,12 +231,15 @@ def tables_check(prop, tier, replay, rule, tv_module="Tables"):
 
     def describe(first, ev, run_ev):
         return {"vec": ev.get("vec") or {"id": ev.get("case")}, "why": ev.get("why")}, f"tables disagree: {json.dumps(ev)[:600]}"
-    tvres = tv.validate(prop, tv_module, outp + ".trace", rep, describe, nchunks=16, boundary="tables", run_prefix=f"{prop}_{tier}_tv")
+    tvres = tv.validate(prop, tv_module, outp + ".trace", rep, describe, nchunks=16, boundary=kind, run_prefix=f"{prop}_{tier}_tv")
     samples = []
     for i, l in enumerate(open(outp + ".trace")):
         if i in (0, 40):
             e = json.loads(l)
-            samples.append({"id": e["id"], "src": e["src"]})
+            e.pop("vec", None)
+            e.pop("exp", None)
+            e.pop("ana", None)
+            samples.append(e)
     rc = rep.finish()
     cov = {"states": max(tot["distinct"] + tvres["states"], 1), "transitions": max(tot["generated"] + tvres["states"], 1),
            "traces_validated_against_impl": tvres["cases_accepted"], "samples": samples,
@@ -242,6 +250,70 @@ def tables_check(prop, tier, replay, rule, tv_module="Tables"):
     write_evidence(prop, tier, "model_checking", cov, time.time() - t0, len(rep.violations),
                    ["the three views are produced by the projections in harness/src/checks/tables.rs (source tables via syn, export model via serde, analysis via the public API)"])
     return rc
+
+
+NAMING_CATALOGUE = [
+    # terminals that map to the same base name
+    'S: "\\+" \'+\' /\\+/ "a" "A" "a1" \'a1\';',
+    'S: "a" ?= "b" "a" ?! "b" "a" \'a\';',
+    'S: "," \',\' ";" ":" "::" "->" "=>" "==" "=";',
+    'S: "if" "type" "Self" "self" "fn" "r#" "_" "__";',
+    'S: /[a-z]+/ /[0-9]+/ /[a-z]+[0-9]/ "\\(" "\\)";',
+    # non-terminals with numeric suffixes, keyword-like names, names of generated helpers
+    'S: S0 S1 S2; S0: "a"; S1: "b"; S2: "c";',
+    'S: Type Fn Self_ Box Vec Option; Type: "a"; Fn: "b"; Self_: "c"; Box: "d"; Vec: "e"; Option: "f";',
+    'S: { A } [ B ] ( C | D ); A: "a"; B: "b"; C: "c"; D: "d";',
+    'S: SList SOpt SGroup; SList: { "a" }; SOpt: [ "b" ]; SGroup: ( "c" | "d" );',
+    'S: { { "a" } "b" } [ [ "c" ] "d" ];',
+    # member names via @name colliding with generated ones and with each other's defaults
+    'S: "a"@b "b"@a A@s A; A: "c";',
+    'S: A@a A A@a0; A: "a";',
+    'S: "a"@r#type "b"@r#fn "c"@self_;',
+    'S: A A A; A: "a" "a" "a";',
+    'S: Ab AB aB; Ab: "a"; AB: "b"; aB: "c";',
+    'S: A_B AB A__B; A_B: "a"; AB: "b"; A__B: "c";',
+    'S: Token Tokens ASTType; Token: "a"; Tokens: "b"; ASTType: "c";',
+    'S: "a"^ "b"^ A^ A; A: "c";',
+]
+
+
+def naming_vectors():
+    out = []
+    for i, body in enumerate(NAMING_CATALOGUE):
+        for ty in ("", "%grammar_type 'LALR(1)'\n"):
+            out.append({"par": f'%start S\n%title "t"\n%comment "c"\n{ty}%%\n{body}\n', "id": "naming%d%s" % (i, "lr" if ty else "ll")})
+    return out
+
+
+def c33(prop, tier, replay):
+    return tables_check(prop, tier, replay,
+                        "a catalogue of grammars built to provoke name clashes (terminals with the same base name in different quoting styles, "
+                        "with lookahead, punctuation and keyword texts; non-terminals with numeric suffixes, keyword-like names and the names of "
+                        "generated helpers; @member names colliding with generated ones), each as LL(k) and LALR(1), plus the grammar universe, "
+                        "the scanner catalogue and every .par file of the repository: per accepted grammar a `names` event lists TERMINAL_NAMES, "
+                        "NON_TERMINALS and - read with syn from the generated user-trait source - type names, per type its field/variant names and "
+                        "per trait its method names; Names.tla requires every name to be a valid Rust identifier (keywords only as raw identifiers) "
+                        "and the sets that must be distinct to be distinct. non-trivial = grammar accepted",
+                        tv_module="Names", kind="names", extra_vectors=naming_vectors())
+
+
+def c18(prop, tier, replay):
+    consts = {"Texts": {"a", "b", "esc", "dot"}, "Kinds": {"legacy", "regex", "raw"}, "Las": {"none", "pos", "neg"},
+              "MaxOcc": 2 if tier == "quick" else 3}
+    gens = [{"module": "Gen_Term", "constants": consts, "invariants": ["Emit", "Dense"], "no_shard_consts": True}]
+    if tier == "quick":
+        gens.append({"module": "Gen_Term", "constants": dict(consts, MaxOcc=4), "invariants": ["Emit"], "no_shard_consts": True,
+                     "simulate": 120, "nshards": 8, "depth": 8})
+    return simple_check(
+        prop, tier, replay, gens, "c18",
+        "every list of up to 2 (3) terminal occurrences drawn from texts {a, b, \\., .} x quoting {\"..\", /../, '..'} x lookahead {none, ?= 'a', ?! 'a'} "
+        "(plus random lists of 4), with the token number Gen_Term.tla assigns to each occurrence (same text, alike kinds, same lookahead = "
+        "same terminal; numbered from 5 in first-occurrence order); the list becomes the production S: o1 o2 ..; for both parser types and "
+        "the harness compares: length of TERMINAL_NAMES, the production table of the generated source and of the export model, the scanner "
+        "entry (pattern, lookahead) carrying that number in the generated source and in the export model, and - when patterns are distinct - "
+        "that the sentence parses with the real run-time. (Lookahead automata / LR tables and skip / transition lists are tied to the same "
+        "numbers by C21's agreement checks.) non-trivial: >= 2 distinct terminals",
+        nontrivial_tags=["several_terminals"], exhaustive=(tier != "quick"))
 
 
 def c21(prop, tier, replay):
@@ -255,4 +327,4 @@ def c21(prop, tier, replay):
                         "predicted productions belong to their non-terminal). non-trivial = grammar accepted")
 
 
-REGISTRY = {"C31": c31, "C32": c32, "C09": c09, "C21": c21}
+REGISTRY = {"C31": c31, "C32": c32, "C09": c09, "C21": c21, "C33": c33, "C18": c18}
